@@ -438,6 +438,8 @@ def describe(rec):
             parts.append("%s=%s" % (key, rec[key]))
     if "text" in rec and isinstance(rec["text"], list):
         parts.append("expr=%r" % uncps(rec["text"]))
+    if "chars" in rec and isinstance(rec["chars"], list):
+        parts.append("text=%r at character %s" % (uncps(rec["chars"]), rec.get("k")))
     if "W" in rec and isinstance(rec["W"], list):
         parts.append("whole=%r" % uncps(rec["W"]))
     if "doctext" in rec and isinstance(rec["doctext"], list):
